@@ -6,7 +6,7 @@ from .c08 import CommProp, has_op
 class C09(CommProp):
     id = "C09"
     sizes = {"quick": 1500, "thorough": 60000}
-    ready = False
+    ready = True
     nontrivial_labels = ("pending-sends>=2", "pending-recvs>=2")
     technique = ("property-based testing (Hypothesis): generated message-queue programs run on the real kernel; their kernel-ordered log "
                  "is replayed through a sequential FIFO specification (model-based oracle on order and identity)")
